@@ -18,12 +18,14 @@ func init() {
 		Explanation: "PATH/GUARD/SEE/STRUCT rules: R-C08-1 in Advertiser.Run's dial closure shutdown() runs exactly once, only on the errors.Is(err, context.Canceled) arm, and is followed only by `return nil`; " +
 			"R-C08-2 shutdown sends exactly one RA, only under terminate()==true, to all-nodes, built from a copy of a.cfg whose only changed field is DefaultLifetime=0, and has no error result; nothing writes Advertiser.cfg after construction; " +
 			"R-C08-3 terminate is the server terminator's method, terminator.set stores isTerminal(sig), isTerminal is `s != SIGHUP` (unix) / true (windows), Signals() includes SIGHUP on unix; " +
-			"R-C08-4 every exit of schedule() waits for the scheduled-task group first, the error arm cancelling before waiting",
+			"R-C08-4 every exit of schedule() waits for the scheduled-task group first, the error arm cancelling before waiting; " +
+			"R-C08-5 a transmission in flight when the scheduler stops is awaited before schedule() returns: either the group's Wait provably waits for running tasks (decided on the library's own SSA: every returning path passes through WaitGroup.Wait) or a reader/writer barrier exists (workers hold an RWMutex for reading around the transmission and re-check the context, every exit write-locks it); " +
+			"R-C08-6 a bare send of a request to the scheduler needs a buffered channel; task closures are followed through factories to the Delay call",
 		Assumptions: []string{
 			"Go type checker and go/ssa construction are correct",
-			"schedgroup.Group.Wait returns once the group context is cancelled (it does not join a task already running) — hence overtaking by an in-flight transmission is not decided",
+			"sync.RWMutex and sync.WaitGroup behave as documented",
 		},
-		NotCovered: []string{"an in-flight worker transmission overtaking the final RA (inside schedgroup)", "transmission after Run returned", "promptness in real time"},
+		NotCovered: []string{"a request channel that is full at the instant of the stop (R-C08-6 only requires a buffer)", "promptness in real time"},
 		Run:        runC08,
 	})
 }
